@@ -181,6 +181,110 @@ theorem lfpLoop_wf (lk : String → List Tuple) (h : String) (cs : List Rule) (b
         have hdf : AllFit cs d := allFit_mono hrecs (evalRulesM_fits false _ recs d hev)
         exact lfpLoop_wf lk h cs base recs hrecs hbn hbf fuel _ y (nodup_unionT hbn hdn) (allFit_unionT hbf hdf) hr
 
+/-! ### the min/max aggregation-in-loop path -/
+
+theorem bestOf_mem (g : Nat) (m : Bool) : ∀ (l : List Tuple) (b : Tuple), bestOf g m l = some b → b ∈ l
+  | [], _, h => by simp [bestOf] at h
+  | t :: ts, b, h => by
+    unfold bestOf at h
+    cases hb : bestOf g m ts with
+    | none => rw [hb] at h; simp at h; subst h; exact List.mem_cons_self ..
+    | some b' =>
+      rw [hb] at h
+      simp only [Option.some.injEq] at h
+      split at h
+      · subst h; exact List.mem_cons_of_mem _ (bestOf_mem g m ts b' hb)
+      · subst h; exact List.mem_cons_self ..
+
+theorem nodup_filterMap_keyed {κ} (f : κ → Option Tuple) (key : Tuple → κ) :
+    ∀ (ks : List κ), ks.Nodup → (∀ k b, f k = some b → key b = k) → (ks.filterMap f).Nodup
+  | [], _, _ => List.nodup_nil
+  | k :: ks, hn, hk => by
+    have hn' := List.nodup_cons.1 hn
+    have ih := nodup_filterMap_keyed f key ks hn'.2 hk
+    cases hf : f k with
+    | none => simpa [List.filterMap, hf] using ih
+    | some b =>
+      simp only [List.filterMap, hf]
+      refine List.nodup_cons.2 ⟨?_, ih⟩
+      intro hmem
+      obtain ⟨k', hk', hb'⟩ := List.mem_filterMap.1 hmem
+      have e1 := hk k b hf
+      have e2 := hk k' b hb'
+      exact hn'.1 (e1 ▸ e2 ▸ hk')
+
+theorem bestPerKey_sub (g : Nat) (m : Bool) (ts : List Tuple) : ∀ t, t ∈ bestPerKey g m ts → t ∈ ts := by
+  intro t ht
+  unfold bestPerKey at ht
+  obtain ⟨k, _, hb⟩ := List.mem_filterMap.1 ht
+  exact (List.mem_filter.1 (bestOf_mem g m _ t hb)).1
+
+theorem bestPerKey_nodup (g : Nat) (m : Bool) (ts : List Tuple) : (bestPerKey g m ts).Nodup := by
+  unfold bestPerKey
+  apply nodup_filterMap_keyed _ (fun t => t.take g) _ (nodup_dedupT _)
+  intro k b hb
+  have := (List.mem_filter.1 (bestOf_mem g m _ b hb)).2
+  simpa using this
+
+theorem projRows_fits (r : Rule) (envs : List Env) (rows : List Tuple) (h : projRows r envs = some rows)
+    (t : Tuple) (ht : t ∈ rows) : Fits r t := by
+  unfold projRows headRows at h
+  obtain ⟨env, _, he⟩ := (optMapM_some_mem _ _ _ h t).1 ht
+  have hl := optMapM_length _ _ _ he
+  simp only [List.length_map] at hl
+  refine ⟨hl, fun _ i c hc => ?_⟩
+  have hc' : (r.hargs.map (fun | .agg _ x => HTerm.var x | t => t))[i]? = some (HTerm.const c) := by
+    rw [List.getElem?_map, hc]; rfl
+  obtain ⟨y, hy, hg⟩ := optMapM_get _ _ _ he i _ hc'
+  simp only [HTerm.plain, Option.some.injEq] at hy
+  subst hy
+  exact hg
+
+theorem recRows_fits (lk : String → List Tuple) : ∀ (rs : List Rule) (d : List Tuple), recRows lk rs = some d → AllFit rs d
+  | [], d, h => by simp [recRows] at h; subst h; intro t ht; cases ht
+  | r :: rs, d, h => by
+    unfold recRows at h
+    cases hb : bodyEnvsM false lk r with
+    | none => simp [hb] at h
+    | some envs =>
+      cases hr : recRows lk rs with
+      | none => simp [hb, hr] at h
+      | some rest =>
+        simp only [hb, hr] at h
+        cases hp : projRows r envs with
+        | none => simp [hp] at h
+        | some rows =>
+          simp only [hp, Option.map_some, Option.some.injEq] at h
+          subst h
+          intro t ht
+          rcases List.mem_append.1 ht with ht | ht
+          · exact ⟨r, List.mem_cons_self .., projRows_fits r envs rows hp t ht⟩
+          · obtain ⟨r', hr', hf⟩ := recRows_fits lk rs rest hr t ht
+            exact ⟨r', List.mem_cons_of_mem _ hr', hf⟩
+
+theorem lfpMinMax_wf (lk : String → List Tuple) (h : String) (cs : List Rule) (base : List Tuple) (recs : List Rule)
+    (g : Nat) (m : Bool) (hrecs : ∀ r, r ∈ recs → r ∈ cs) (hbf : AllFit cs base) :
+    ∀ (fuel : Nat) (x seen y : List Tuple), x.Nodup → AllFit cs x → seen.Nodup → AllFit cs seen →
+      lfpMinMax lk h base recs g m fuel x seen = some y → y.Nodup ∧ AllFit cs y
+  | 0, _, _, _, _, _, _, _, hr => by simp [lfpMinMax] at hr
+  | fuel + 1, x, seen, y, hxn, hxf, hsn, hsf, hr => by
+    unfold lfpMinMax at hr
+    cases hev : recRows (override lk h x) recs with
+    | none => rw [hev] at hr; cases hr
+    | some d =>
+      rw [hev] at hr
+      simp only at hr
+      have hx'f : AllFit cs (bestPerKey g m (dedupT (base ++ d))) := by
+        intro t ht
+        have := mem_dedupT.1 (bestPerKey_sub g m _ t ht)
+        rcases List.mem_append.1 this with hb | hd
+        · exact hbf t hb
+        · exact allFit_mono hrecs (recRows_fits _ recs d hev) t hd
+      split at hr
+      · cases hr; exact ⟨nodup_unionT hsn hxn, allFit_unionT hsf hxf⟩
+      · exact lfpMinMax_wf lk h cs base recs g m hrecs hbf fuel _ _ y (bestPerKey_nodup _ _ _) hx'f
+          (nodup_unionT hsn (bestPerKey_nodup _ _ _)) (allFit_unionT hsf hx'f) hr
+
 /-- the result of one head: duplicate-free, every tuple of the shape of one of the head's
     clauses — provided the head's own current content (stored or accumulated) is. -/
 theorem evalHead_wf (cfg : Cfg) (hash : Tuple → Nat) (fuel : Nat) (p : Program) (lk : String → List Tuple) (h : String)
@@ -192,22 +296,33 @@ theorem evalHead_wf (cfg : Cfg) (hash : Tuple → Nat) (fuel : Nat) (p : Program
   · -- self fix-point
     unfold lfpSelf at hev
     simp only at hev
+    have hrecsub : ∀ r, r ∈ (if ((clausesOf p h).flatMap (fun r => r.body.filterMap (fun l => l.atom?.map (·.rel)))).count h < (clausesOf p h).length
+        then (clausesOf p h).filter (fun r => r.scans.contains h) else clausesOf p h) → r ∈ clausesOf p h := by
+      intro r hr
+      split at hr
+      · exact (List.mem_filter.1 hr).1
+      · exact hr
+    have hbase : ∀ b, (if ((clausesOf p h).flatMap (fun r => r.body.filterMap (fun l => l.atom?.map (·.rel)))).count h < (clausesOf p h).length
+        then evalRulesM false lk ((clausesOf p h).filter (fun r => !r.scans.contains h)) else some (dedupT (lk h))) = some b →
+        b.Nodup ∧ AllFit (clausesOf p h) b := by
+      intro b hb
+      split at hb
+      · exact ⟨evalRulesWith_nodup _ _ _ hb,
+          allFit_mono (fun r hr => (List.mem_filter.1 hr).1) (evalRulesM_fits false lk _ b hb)⟩
+      · cases hb
+        exact ⟨nodup_dedupT _, fun t ht => hself t (mem_dedupT.1 ht)⟩
     split at hev
-    · cases hev
+    · -- min/max aggregation in the loop
+      split at hev
+      · rename_i g isMin b hsig hb
+        exact lfpMinMax_wf lk h (clausesOf p h) b _ g isMin hrecsub (hbase b hb).2 fuel [] [] ts List.nodup_nil
+          (fun t ht => by cases ht) List.nodup_nil (fun t ht => by cases ht) hev
+      · cases hev
     · split at hev
       · cases hev
       · rename_i b hb
-        have hbw : b.Nodup ∧ AllFit (clausesOf p h) b := by
-          split at hb
-          · exact ⟨evalRulesWith_nodup _ _ _ hb,
-              allFit_mono (fun r hr => (List.mem_filter.1 hr).1) (evalRulesM_fits false lk _ b hb)⟩
-          · cases hb
-            exact ⟨nodup_dedupT _, fun t ht => hself t (mem_dedupT.1 ht)⟩
-        refine lfpLoop_wf lk h (clausesOf p h) b _ ?_ hbw.1 hbw.2 fuel [] ts List.nodup_nil (fun t ht => by cases ht) hev
-        intro r hr
-        split at hr
-        · exact (List.mem_filter.1 hr).1
-        · exact hr
+        exact lfpLoop_wf lk h (clausesOf p h) b _ hrecsub (hbase b hb).1 (hbase b hb).2 fuel [] ts List.nodup_nil
+          (fun t ht => by cases ht) hev
   · split at hev
     · cases hev
       have hpf : AllFit (clausesOf p h) (unionAll ((List.range cfg.workers).map
